@@ -340,7 +340,24 @@ class Guided:
                 fs.append([n, Con("Seq", l)])
         return fs
 
-    def step(self):
+    def prelude_deep(self):
+        """a three-level attached tree, so that changes below have ancestors to propagate to"""
+        rng = self.rng
+        pf, self.pf = self.pf, 0.0
+        a, b, c = self.new_leaf(), self.new_leaf(), self.new_leaf()
+        mid = self.emit(Con("New", "L18In", ORGS[0], [["name", Con("P", _lval(rng.choice(["p", "q"])))], ["req", Con("One", Con("Some", a))],
+                                                  ["opt", Con("One", None)], ["tup", Con("Seq", [b] if b is not None else [])], ["lst", Con("Seq", [])]],
+                            None, False, False, False))
+        if None not in (a, b, c, mid):
+            if rng.random() < 0.5:
+                self.emit(Con("New", "L18Un", ORGS[0], [["k", Con("P", _lval(rng.choice([0, 1])))], ["one", Con("One", Con("Some", mid))],
+                                                      ["pair", Con("Seq", [c])]], None, False, False, False))
+            else:
+                self.emit(Con("New", "L18In", ORGS[0], [["name", Con("P", _lval("p"))], ["req", Con("One", Con("Some", c))], ["opt", Con("One", None)],
+                                                      ["tup", Con("Seq", [])], ["lst", Con("Seq", [mid])]], None, False, False, False))
+        self.pf = pf
+
+    def step(self, deep=False):
         rng = self.rng
         w = self.w
         if len(w.pool) < 2:
@@ -348,6 +365,17 @@ class Guided:
             return
         r = self.roles()
         anyi = lambda: rng.randrange(len(w.pool))
+        if deep:
+            # prefer nodes that have a grandparent
+            dd = []
+            for i, o in enumerate(w.pool):
+                try:
+                    if not o.detached and o.parent is not None and o.parent.parent is not None:
+                        dd.append(i)
+                except Exception:  # noqa
+                    pass
+            if dd:
+                r = dict(r, sub=r["sub"] + dd * 3)
         pref = lambda *names: (rng.choice([i for n in names for i in r[n]]) if any(r[n] for n in names) and rng.random() < 0.8 else anyi())
         k = rng.choice(["NewInner"] * 5 + ["NewLeaf", "Attach", "Detach", "Detach", "DetachSelf", "DetachSelf"] + ["Replace"] * 4
                        + ["ReplaceWith"] * 4 + ["ReplaceNone", "Dup", "Dup", "Xpath", "Visitor", "Visitor", "Transformer", "Transformer", "Twin"])
@@ -458,11 +486,14 @@ def _gen_alarm(signum, frame):
     raise _GenTimeout()
 
 
-def gen_guided(rng, nsteps, pfault):
+def gen_guided(rng, nsteps, pfault, deep=False):
     g = Guided(rng, pfault)
     try:
+        if deep:
+            g.prelude_deep()
+            nsteps += len(g.ops)
         while len(g.ops) < nsteps and not g.dead:
-            g.step()
+            g.step(deep)
     finally:
         ops = list(g.ops)
         g.close()
@@ -479,6 +510,9 @@ def gen_cases(rng, tier, n=None, pfault=0.12, kind="history"):
             steps = rng.choice([5, 7, 9, 12]) if tier == "quick" else rng.choice([5, 8, 12, 16, 20])
             if k % 6 == 5:
                 cases.append({"kind": kind + "-blind", "input": Con("L18", ct, gen_history(rng, steps)), "digest_size": None, "opts": None})
+            elif k % 3 == 1:
+                cases.append({"kind": kind + "-deep", "input": Con("L18", ct, gen_guided(rng, max(4, steps - 3), pfault, deep=True)),
+                              "digest_size": None, "opts": None})
             else:
                 cases.append({"kind": kind + "-guided", "input": Con("L18", ct, gen_guided(rng, steps, pfault)), "digest_size": None, "opts": None})
     finally:
@@ -1110,8 +1144,6 @@ def _walk(inp, impl_obs, model_obs):
                 what = "pool"
             diffs.append(f"corr:step{pos}:{what}")
             break
-        if pos in byk:
-            agreed.append(byk[pos])
         if cut is not None and pos >= cut:
             break
     else:
@@ -1119,10 +1151,18 @@ def _walk(inp, impl_obs, model_obs):
             diffs.append(f"corr:step{len(msteps)}:model-stopped")
         elif not diffs and run.args[1] != resolve_term(model_obs.args[1]):
             diffs.append("corr:queries")
+    # the property's clauses are judged on what the IMPLEMENTATION did, whether or not the model agrees; the model only
+    # supplies the premise (steps from the first inadmissible one on are outside the property)
+    stop = next((pos for pos, ms in enumerate(msteps) if ms.name == "Inadmissible"), None)
+    agreed = [byk[k] for k in sorted(byk) if stop is None or k < stop]
     return diffs, agreed, inadm
 
 
 QUERY_CLAUSES = ("ancestors", "depth", "is-ancestor", "xpath")
+# what a rejected call damaged, by kind: the tree / registry links, the identifiers, or the content
+FRAME_CLASSES = (("links", ("attached", "parent", "parent-field", "parent-index", "registry", "lost")),
+                 ("ids", ("id", "original-id")),
+                 ("content", ("fields", "content-id")))
 CLAUSE_ORDER = ("child-detached", "child-parent-link", "parent-slot", "lookup", "content-id") + QUERY_CLAUSES
 
 
@@ -1177,8 +1217,6 @@ def spec_violation(inp, impl_obs, model_obs, diffs):
 
 def _failing_check(prop, inp, impl_obs, model_obs):
     diffs, agreed, _ = _walk(inp, impl_obs, model_obs)
-    if diffs:
-        return None, None
     pd = property_diffs(prop, agreed)
     if not pd:
         return None, None
@@ -1205,7 +1243,9 @@ def mechanism(prop, inp, impl_obs, model_obs):
         if structural:
             return f"C18:{opname}:{structural[0]}"
         return "C18:query:" + [x for x in CLAUSE_ORDER if x in clauses][0]
-    return f"C19:{opname}:{kind}"
+    comps = [_s(x) for x in frame]
+    classes = [name for name, members in FRAME_CLASSES if any(c in members for c in comps)]
+    return f"C19:{opname}:{kind}:" + "+".join(classes)
 
 
 def finding_key(inp, impl_obs, model_obs, diffs):
